@@ -635,8 +635,10 @@ bool ref_verify_raw(const KeyTruth &k, const AlgInfo &a, const std::string &msg,
 	}
 	std::string s = sig;
 	if (a.fam == FAM_ES) {
-		// the curve must be the one the algorithm names
-		if (k.crv != a.ec_crv)
+		// C02/C09 state the EC rule by curve *size* (256 for ES256 and ES256K, 384, 521), so a
+		// secp256k1 key under ES256 (or P-256 under ES256K) is inside the statement; only the size
+		// has to match.
+		if (k.bits != a.ec_bits)
 			return false;
 		if (!ecdsa_raw_to_der(sig, (size_t)(k.bits + 7) / 8, s))
 			return false;
